@@ -56,8 +56,9 @@ class Panoc:
     name = 'panoc'
     driver = 'drv_loop'
     gen_scripts = ['gen_c05.py', 'gen_c06.py', 'gen_c15.py']
-    extra_sources = ['Alpaqa/Model/Panoc.lean', 'Alpaqa/Proofs/PanocInv.lean', 'Alpaqa/Gen/C05.lean',
-                     'Alpaqa/Gen/C06.lean', 'Driver/Loop.lean', 'Driver/ReplayCommon.lean']
+    extra_sources = ['Alpaqa/Model/Panoc.lean', 'Alpaqa/Proofs/PanocInv.lean', 'Alpaqa/Proofs/PanocFuel.lean',
+                     'Alpaqa/Proofs/PanocSized.lean', 'Alpaqa/Proofs/PanocLoop.lean', 'Alpaqa/Proofs/PanocDescent.lean',
+                     'Alpaqa/Gen/C05.lean', 'Alpaqa/Gen/C06.lean', 'Driver/Loop.lean', 'Driver/ReplayCommon.lean']
     suffix = ''            # Props/C03.lean, Props/C05.lean …  (PANOC is the base case)
 
     def build(self):
@@ -89,8 +90,8 @@ class Panoc:
             res['first'].append(f'driver rc={rc} lines={len(dout)}/{len(ops)}: {err[-300:]}')
             return res
         for i, (o, h, d) in enumerate(zip(ops, hout, dout)):
-            hs = canon_early(S.strip_events(h))
-            d = canon_early(d.strip())
+            hs = S.strip_events(h)           # PANOC: ε of the early NotFinite return is +inf in model and code
+            d = d.strip()
             if hs != d and S.Op.parse(o).nat('nanat') and nonpure(S.parse_out(h)['events']):
                 res['skipped'] += 1
                 continue
